@@ -104,58 +104,58 @@ macro_rules! roundtrip {
     };
 }
 
-// @unit id=retain.rt.bool props=C10 tier=quick kind=proof fn=encode_value,decode_value
+// @unit id=retain.rt.bool props=C09,C10 tier=quick kind=proof fn=encode_value,decode_value
 roundtrip!(retain_rt_bool, Value::Bool, bool, Value::Bool(y) => |x: bool| *y == x);
-// @unit id=retain.rt.sint props=C10 tier=quick kind=proof fn=encode_value,decode_value
+// @unit id=retain.rt.sint props=C09,C10 tier=quick kind=proof fn=encode_value,decode_value
 roundtrip!(retain_rt_sint, Value::SInt, i8, Value::SInt(y) => |x: i8| *y == x);
-// @unit id=retain.rt.int props=C10 tier=quick kind=proof fn=encode_value,decode_value
+// @unit id=retain.rt.int props=C09,C10 tier=quick kind=proof fn=encode_value,decode_value
 roundtrip!(retain_rt_int, Value::Int, i16, Value::Int(y) => |x: i16| *y == x);
-// @unit id=retain.rt.dint props=C10 tier=quick kind=proof fn=encode_value,decode_value
+// @unit id=retain.rt.dint props=C09,C10 tier=quick kind=proof fn=encode_value,decode_value
 roundtrip!(retain_rt_dint, Value::DInt, i32, Value::DInt(y) => |x: i32| *y == x);
-// @unit id=retain.rt.lint props=C10 tier=quick kind=proof fn=encode_value,decode_value
+// @unit id=retain.rt.lint props=C09,C10 tier=quick kind=proof fn=encode_value,decode_value
 roundtrip!(retain_rt_lint, Value::LInt, i64, Value::LInt(y) => |x: i64| *y == x);
-// @unit id=retain.rt.usint props=C10 tier=thorough kind=proof fn=encode_value,decode_value
+// @unit id=retain.rt.usint props=C09,C10 tier=quick kind=proof fn=encode_value,decode_value
 roundtrip!(retain_rt_usint, Value::USInt, u8, Value::USInt(y) => |x: u8| *y == x);
-// @unit id=retain.rt.uint props=C10 tier=thorough kind=proof fn=encode_value,decode_value
+// @unit id=retain.rt.uint props=C09,C10 tier=quick kind=proof fn=encode_value,decode_value
 roundtrip!(retain_rt_uint, Value::UInt, u16, Value::UInt(y) => |x: u16| *y == x);
-// @unit id=retain.rt.udint props=C10 tier=thorough kind=proof fn=encode_value,decode_value
+// @unit id=retain.rt.udint props=C09,C10 tier=quick kind=proof fn=encode_value,decode_value
 roundtrip!(retain_rt_udint, Value::UDInt, u32, Value::UDInt(y) => |x: u32| *y == x);
-// @unit id=retain.rt.ulint props=C10 tier=quick kind=proof fn=encode_value,decode_value
+// @unit id=retain.rt.ulint props=C09,C10 tier=quick kind=proof fn=encode_value,decode_value
 roundtrip!(retain_rt_ulint, Value::ULInt, u64, Value::ULInt(y) => |x: u64| *y == x);
-// @unit id=retain.rt.real props=C10 tier=quick kind=proof fn=encode_value,decode_value
+// @unit id=retain.rt.real props=C09,C10 tier=quick kind=proof fn=encode_value,decode_value
 roundtrip!(retain_rt_real, Value::Real, f32, Value::Real(y) => |x: f32| y.to_bits() == x.to_bits());
-// @unit id=retain.rt.lreal props=C10 tier=quick kind=proof fn=encode_value,decode_value
+// @unit id=retain.rt.lreal props=C09,C10 tier=quick kind=proof fn=encode_value,decode_value
 roundtrip!(retain_rt_lreal, Value::LReal, f64, Value::LReal(y) => |x: f64| y.to_bits() == x.to_bits());
-// @unit id=retain.rt.byte props=C10 tier=thorough kind=proof fn=encode_value,decode_value
+// @unit id=retain.rt.byte props=C09,C10 tier=quick kind=proof fn=encode_value,decode_value
 roundtrip!(retain_rt_byte, Value::Byte, u8, Value::Byte(y) => |x: u8| *y == x);
-// @unit id=retain.rt.word props=C10 tier=thorough kind=proof fn=encode_value,decode_value
+// @unit id=retain.rt.word props=C09,C10 tier=quick kind=proof fn=encode_value,decode_value
 roundtrip!(retain_rt_word, Value::Word, u16, Value::Word(y) => |x: u16| *y == x);
-// @unit id=retain.rt.dword props=C10 tier=thorough kind=proof fn=encode_value,decode_value
+// @unit id=retain.rt.dword props=C09,C10 tier=quick kind=proof fn=encode_value,decode_value
 roundtrip!(retain_rt_dword, Value::DWord, u32, Value::DWord(y) => |x: u32| *y == x);
-// @unit id=retain.rt.lword props=C10 tier=quick kind=proof fn=encode_value,decode_value
+// @unit id=retain.rt.lword props=C09,C10 tier=quick kind=proof fn=encode_value,decode_value
 roundtrip!(retain_rt_lword, Value::LWord, u64, Value::LWord(y) => |x: u64| *y == x);
-// @unit id=retain.rt.time props=C10 tier=quick kind=proof fn=encode_value,decode_value
+// @unit id=retain.rt.time props=C09,C10 tier=quick kind=proof fn=encode_value,decode_value
 roundtrip!(retain_rt_time, |n| Value::Time(Duration::from_nanos(n)), i64, Value::Time(y) => |x: i64| y.as_nanos() == x);
-// @unit id=retain.rt.ltime props=C10 tier=thorough kind=proof fn=encode_value,decode_value
+// @unit id=retain.rt.ltime props=C09,C10 tier=quick kind=proof fn=encode_value,decode_value
 roundtrip!(retain_rt_ltime, |n| Value::LTime(Duration::from_nanos(n)), i64, Value::LTime(y) => |x: i64| y.as_nanos() == x);
-// @unit id=retain.rt.date props=C10 tier=thorough kind=proof fn=encode_value,decode_value
+// @unit id=retain.rt.date props=C09,C10 tier=quick kind=proof fn=encode_value,decode_value
 roundtrip!(retain_rt_date, |n| Value::Date(DateValue::new(n)), i64, Value::Date(y) => |x: i64| y.ticks() == x);
-// @unit id=retain.rt.ldate props=C10 tier=thorough kind=proof fn=encode_value,decode_value
+// @unit id=retain.rt.ldate props=C09,C10 tier=quick kind=proof fn=encode_value,decode_value
 roundtrip!(retain_rt_ldate, |n| Value::LDate(LDateValue::new(n)), i64, Value::LDate(y) => |x: i64| y.nanos() == x);
-// @unit id=retain.rt.tod props=C10 tier=quick kind=proof fn=encode_value,decode_value
+// @unit id=retain.rt.tod props=C09,C10 tier=quick kind=proof fn=encode_value,decode_value
 roundtrip!(retain_rt_tod, |n| Value::Tod(TimeOfDayValue::new(n)), i64, Value::Tod(y) => |x: i64| y.ticks() == x);
-// @unit id=retain.rt.ltod props=C10 tier=thorough kind=proof fn=encode_value,decode_value
+// @unit id=retain.rt.ltod props=C09,C10 tier=quick kind=proof fn=encode_value,decode_value
 roundtrip!(retain_rt_ltod, |n| Value::LTod(LTimeOfDayValue::new(n)), i64, Value::LTod(y) => |x: i64| y.nanos() == x);
-// @unit id=retain.rt.dt props=C10 tier=thorough kind=proof fn=encode_value,decode_value
+// @unit id=retain.rt.dt props=C09,C10 tier=quick kind=proof fn=encode_value,decode_value
 roundtrip!(retain_rt_dt, |n| Value::Dt(DateTimeValue::new(n)), i64, Value::Dt(y) => |x: i64| y.ticks() == x);
-// @unit id=retain.rt.ldt props=C10 tier=quick kind=proof fn=encode_value,decode_value
+// @unit id=retain.rt.ldt props=C09,C10 tier=quick kind=proof fn=encode_value,decode_value
 roundtrip!(retain_rt_ldt, |n| Value::Ldt(LDateTimeValue::new(n)), i64, Value::Ldt(y) => |x: i64| y.nanos() == x);
-// @unit id=retain.rt.char props=C10 tier=thorough kind=proof fn=encode_value,decode_value
+// @unit id=retain.rt.char props=C09,C10 tier=quick kind=proof fn=encode_value,decode_value
 roundtrip!(retain_rt_char, Value::Char, u8, Value::Char(y) => |x: u8| *y == x);
-// @unit id=retain.rt.wchar props=C10 tier=quick kind=proof fn=encode_value,decode_value
+// @unit id=retain.rt.wchar props=C09,C10 tier=quick kind=proof fn=encode_value,decode_value
 roundtrip!(retain_rt_wchar, Value::WChar, u16, Value::WChar(y) => |x: u16| *y == x);
 
-// @unit id=retain.rt.null_and_refs props=C10 tier=quick kind=proof fn=encode_value,decode_value
+// @unit id=retain.rt.null_and_refs props=C09,C10 tier=quick kind=proof fn=encode_value,decode_value
 #[kani::proof]
 fn retain_rt_null_and_refs() {
     let mut out = Vec::new();
@@ -203,4 +203,51 @@ fn retain_decode_array_header() {
     kani::cover!(dims == 1);
     std::mem::forget(d);
     assert!(is_err, "a truncated array header is an error (and no allocation beyond the limit was requested)");
+}
+
+// Strings: length prefix is the UTF-8 byte length; one symbolic char over the FULL char domain
+// (1..4 bytes) plus a fixed ASCII char.
+// @unit id=retain.rt.wstring props=C09,C10 tier=quick kind=bounded bound="WSTRING of 2 chars: one symbolic (full char domain) + 'x'" timeout=1200 fn=encode_value,decode_value,encode_string,RetainReader::read_string
+#[kani::proof]
+#[kani::unwind(12)]
+fn retain_rt_wstring() {
+    let c: char = kani::any();
+    let mut text = String::new();
+    text.push(c);
+    text.push('x');
+    let v = Value::WString(text.clone());
+    let mut out = Vec::new();
+    let e = encode_value(&mut out, &v);
+    assert!(matches!(&e, Ok(())));
+    std::mem::forget(e);
+    assert!(out.len() == 1 + 4 + c.len_utf8() + 1, "tag + u32 byte length + the UTF-8 bytes");
+    let mut r = RetainReader::new(&out);
+    let d = decode_value(&mut r);
+    let ok = matches!(&d, Ok(Value::WString(t)) if t.as_bytes() == text.as_bytes());
+    let consumed = r.offset == out.len();
+    std::mem::forget(d);
+    kani::cover!(c.len_utf8() == 1);
+    kani::cover!(c.len_utf8() == 4);
+    assert!(ok && consumed, "decode(encode(WSTRING)) == the same text, consuming exactly the encoding");
+}
+
+// the element-count site of the array header (the dimension-count site is the harness above)
+// @unit id=retain.decode.array_len props=C10 tier=quick kind=bounded bound="array tag, symbolic u32 len (full domain), dims = 0, end of data" timeout=1500 fn=decode_value
+#[kani::proof]
+#[kani::stub(std::vec::Vec::with_capacity, checked_with_capacity)]
+#[kani::unwind(3)]
+fn retain_decode_array_len() {
+    let len_bytes: [u8; 4] = kani::any();
+    let mut data = [0u8; 9];
+    data[0] = 28; // ValueTag::Array
+    data[1..5].copy_from_slice(&len_bytes);
+    let len = u32::from_le_bytes(len_bytes);
+    kani::assume(len > 0);
+    let mut r = RetainReader::new(&data);
+    let d = decode_value(&mut r);
+    let is_err = d.is_err();
+    kani::cover!(len == u32::MAX);
+    kani::cover!(len == 1);
+    std::mem::forget(d);
+    assert!(is_err, "an element count the data cannot hold is an error (and no allocation beyond the limit was requested)");
 }
